@@ -929,3 +929,70 @@ def rf55(run):
                       'aliases stays available across the block' % (ks, ', which update_mem_availability prunes' if ks in pruned else
                                                                    ', which is not filled for every store'), line=t.line)
     run.min_instances(rule, 1)
+
+
+# ---------------------------------------------------------------------------------------------
+# RF62: the combiner treats a memory operand as stale after any later memory write
+# ---------------------------------------------------------------------------------------------
+
+def rf62(run):
+    import re
+    rule = 'RF62'
+    run.rule(rule, 'combiner, obsolete_op_p: the answer for a memory operand is "not obsolete" only when no memory write was seen after the '
+                   'definition (last_mem_ref_insn_num <= def_insn_num).  The block state holds one slot per fact, overwritten at every store: '
+                   'a refinement that consults such a slot (e.g. the operand of the last store) forgets the earlier stores of the interval')
+    gen = run.tu('gen')
+    f = gen.func('obsolete_op_p')
+    run.functions_analysed.add(('gen', f.name))
+    cfg = f.cfg
+    from rf_proto import dominating_conditions
+    rets = return_blocks(f)
+    if len(rets) < 2:
+        raise F.AnalysisBroken('obsolete_op_p: returns not found')
+    norm = lambda s_: re.sub(r'[\s()]', '', s_)
+    STALE = re.compile(r'(gen_ctx->combine_ctx->)?last_mem_ref_insn_num>def_insn_num')
+    FRESH = re.compile(r'(gen_ctx->combine_ctx->)?last_mem_ref_insn_num<=def_insn_num')
+    n = 0
+    for bid, ret in sorted(rets.items()):
+        e = F.strip(ret['c'][0])
+        v = F.const_value(e)
+        conds = dominating_conditions(cfg, bid)
+        nonmem = any(('mode' in c and 'MIR_OP_VAR_MEM' in c and '!=' in c and tr) for c, tr in conds)
+        fresh = any((FRESH.fullmatch(norm(c)) and tr) or (STALE.fullmatch(norm(c)) and not tr) for c, tr in conds)
+        mem_path = any(('mode' in c and 'MIR_OP_VAR_MEM' in c and '!=' in c and not tr) for c, tr in conds)
+        if v is not None and v != 0:
+            verdict = 'returns TRUE'
+        elif nonmem:
+            verdict = 'not a memory operand'
+        elif not mem_path:
+            verdict = 'before the memory test'
+            if v == 0:
+                verdict = None
+        elif STALE.fullmatch(norm(F.src(e))):
+            verdict = 'returns the staleness test itself'
+        elif fresh:
+            verdict = 'no memory write after the definition on this path'
+        else:
+            verdict = None
+        n += 1
+        run.ob(rule, ('return', ret['l']), verdict is not None, {'return': F.src(e)[:80], 'line': ret['l'], 'why': verdict})
+        if verdict is None:
+            # which state does the expression consult, and is it a single overwritten slot?
+            slots = sorted({x['n'] for x in F.walk(e) if x['k'] == 'MemberExpr' and F.src(F.strip(x['c'][0])).endswith('combine_ctx')})
+            for g in gen.func_list:
+                for x in g.walk():
+                    if x['k'] == 'CallExpr' and any(y['k'] == 'MemberExpr' and y['n'] in slots and F.src(F.strip(y['c'][0])).endswith('combine_ctx')
+                                                    for a in F.call_args(x) for y in F.walk(a)) and g.name != f.name \
+                            and not (x.get('callee') or '').startswith('may_'):
+                        raise F.AnalysisBroken('obsolete_op_p consults %s, which %s updates through %s: an accumulating summary of the stores '
+                                               'is outside this rule' % (slots, g.name, x.get('callee')))
+                    if x['k'] in ('BinaryOperator', 'CompoundAssignOperator') and x['op'].endswith('=') and x['op'] not in ('==', '!=', '<=', '>='):
+                        l = F.strip(x['c'][0])
+                        if any(y['k'] == 'MemberExpr' and y['n'] in slots for y in F.walk(l)) and \
+                                (x['k'] == 'CompoundAssignOperator' or any(y['k'] == 'MemberExpr' and y['n'] in slots for y in F.walk(x['c'][1]))):
+                            raise F.AnalysisBroken('obsolete_op_p consults %s, which %s joins with its old value: outside this rule' % (slots, g.name))
+            run.violation(rule, f, 'memory operand declared fresh', '`return %s` can answer "not obsolete" for a memory operand although a '
+                          'memory write was recorded after its definition; the state it consults (%s) is a single slot overwritten at each '
+                          'store, so stores between the definition and the last one are not taken into account: the combiner substitutes a '
+                          'load across a store to the same location' % (F.src(e)[:90], ', '.join(slots) or 'none'), line=ret['l'])
+    return n
